@@ -1,7 +1,1584 @@
-//! C17 — not implemented yet.
+//! C17 — binning soundness (reg2bin ∈ reg2bins for every intersecting pair), chunk-list
+//! optimisation preserves coverage, and index files (BAI, CSI, tabix, gzi, fai, crai) round-trip.
+//!
+//! Sub-checks
+//! * `containment`   exhaustive over the nine geometries min_shift 1..3 × depth 1..3 (quick: the six
+//!                   with ≤ 512 positions) through the `noodles_csi::verif` hook, using the exact
+//!                   `M_b[e]` reformulation of DESIGN §3 C17; `reg2bin` is compared with the
+//!                   independent transcription of the specification on every interval.
+//! * `pairs_public`  sampled intersecting (feature, region) pairs at (14,5), (14,6), (12,5), (10,4),
+//!                   (16,4) through the public path: one-record `Indexer` + `BinningIndex::query`.
+//! * `chunks`        `optimize_chunks` / `merge_chunks` coverage equality, order and disjointness.
+//! * `rt_binning`    BAI / CSI / tabix write→read (arbitrary structurally valid indexes and indexes
+//!                   produced by the indexers) incl. an independent byte-level walk of what was written.
+//! * `rt_flat`       gzi / fai / crai write→read.
 
+use crate::engine::shard::Recorder;
 use crate::engine::*;
+use crate::oracle::{bgzf_walk, binning};
+use crate::{ensure, ensure_eq};
+use bit_vec::BitVec;
+use noodles_bgzf as bgzf;
+use noodles_core::Position;
+use noodles_csi::{
+    self as csi, BinningIndex,
+    binning_index::{
+        Indexer, ReferenceSequence as _,
+        index::{
+            Header as TbxHeader, ReferenceSequence,
+            header::{Format, format::CoordinateSystem},
+            reference_sequence::{
+                Bin, Metadata,
+                bin::Chunk,
+                index::{BinnedIndex, LinearIndex},
+            },
+        },
+        merge_chunks, optimize_chunks,
+    },
+};
+use proptest::prelude::*;
+use serde::{Deserialize, Serialize};
+use std::collections::BTreeMap;
+
+fn pos(n: u64) -> Position {
+    // callers guarantee n ≥ 1
+    Position::new(n as usize).unwrap_or(Position::MIN)
+}
+
+fn vp(n: u64) -> bgzf::VirtualPosition {
+    bgzf::VirtualPosition::from(n)
+}
+
+fn err1(sig: &str, msg: String) -> Vec<Fail> {
+    vec![Fail::new(sig, msg)]
+}
+
+// ------------------------------------------------------------------------------------------------
+// (a) exhaustive containment
+// ------------------------------------------------------------------------------------------------
+
+const SMALL_GEOMETRIES: [(u8, u8); 9] = [(1, 1), (2, 1), (3, 1), (1, 2), (2, 2), (3, 2), (1, 3), (2, 3), (3, 3)];
+
+#[derive(Clone, Debug, Serialize, Deserialize)]
+pub struct PairCase {
+    pub min_shift: u8,
+    pub depth: u8,
+    /// one-based closed feature interval
+    pub feature: (u64, u64),
+    /// one-based closed region interval
+    pub region: (u64, u64),
+}
+
+fn hook_bins(s: u64, e: u64, ms: u8, d: u8, bv: &mut BitVec) {
+    bv.fill(false);
+    csi::verif::reg2bins(pos(s), pos(e), ms, d, bv);
+}
+
+/// The single-pair form of the property (also the replay entry of the enumeration).
+fn check_pair(c: &PairCase) -> Verdict {
+    let (ms, d) = (c.min_shift, c.depth);
+    let (fs, fe) = c.feature;
+    let (rs, re) = c.region;
+    ensure!(fs >= 1 && fs <= fe && rs >= 1 && rs <= re, "c17.bad-case", "malformed replay case {c:?}");
+    let b = csi::verif::reg2bin(pos(fs), pos(fe), ms, d) as u64;
+    let want = binning::reg2bin_1based(fs, fe, ms as u32, d as u32);
+    let def = binning::reg2bin_def(fs - 1, fe, ms as u32, d as u32);
+    ensure!(want == def, "c17.oracle-disagrees", "oracle formulations disagree on [{fs},{fe}] ({ms},{d}): spec {want} definition {def}");
+    ensure!(b == want, "c17.reg2bin.differs-from-spec", "reg2bin([{fs},{fe}], min_shift={ms}, depth={d}) = {b}, specification gives {want}");
+    let mut bv = BitVec::from_elem(Bin::max_id(d), false);
+    hook_bins(rs, re, ms, d, &mut bv);
+    let intersects = fs <= re && rs <= fe;
+    if intersects {
+        ensure!(
+            bv.get(b as usize) == Some(true),
+            "c17.containment",
+            "feature [{fs},{fe}] is in bin {b}; region [{rs},{re}] intersects it but reg2bins (min_shift={ms}, depth={d}) does not list bin {b}"
+        );
+    }
+    Ok(Pass::new(intersects, key_of(c)))
+}
+
+fn replay_pair(v: &serde_json::Value) -> Verdict {
+    let c: PairCase = serde_json::from_value(v.clone()).map_err(|e| err1("c17.bad-case", format!("cannot decode: {e}")))?;
+    check_pair(&c)
+}
+
+struct GeomTables {
+    p: u64,
+    nb: usize,
+    /// bin_of[(s-1)*p + (e-1)] for s ≤ e — stored compactly per start: offsets
+    /// m[e * nb + b] = max end of a feature of bin b that starts at or before e (0 = none)
+    m: Vec<u16>,
+}
+
+/// Build the `M_b[e]` table from noodles' own `reg2bin` (all intervals), comparing every value
+/// with the oracle when `compare` says the interval belongs to this shard.
+fn build_tables(ms: u8, d: u8, shard: usize, nshards: usize) -> Result<(GeomTables, u64), (PairCase, Vec<Fail>)> {
+    let p = binning::n_positions(ms as u32, d as u32);
+    let nb = binning::n_bins(d as u32) as usize;
+    // max end per (start, bin)
+    let mut m = vec![0u16; (p as usize + 1) * nb];
+    let mut compared = 0u64;
+    for s in 1..=p {
+        let row = &mut m[(s as usize) * nb..(s as usize + 1) * nb];
+        let mine = (s as usize) % nshards == shard;
+        for e in s..=p {
+            let b = csi::verif::reg2bin(pos(s), pos(e), ms, d);
+            if mine {
+                let want = binning::reg2bin_1based(s, e, ms as u32, d as u32);
+                let def = binning::reg2bin_def(s - 1, e, ms as u32, d as u32);
+                compared += 1;
+                if b as u64 != want || want != def {
+                    let case = PairCase { min_shift: ms, depth: d, feature: (s, e), region: (s, e) };
+                    let fails = match check_pair(&case) {
+                        Err(f) => f,
+                        Ok(_) => err1("c17.reg2bin.differs-from-spec", format!("reg2bin([{s},{e}]) = {b}, spec {want}, definition {def}")),
+                    };
+                    return Err((case, fails));
+                }
+            }
+            if b >= nb {
+                let case = PairCase { min_shift: ms, depth: d, feature: (s, e), region: (s, e) };
+                return Err((case, err1("c17.reg2bin.out-of-range", format!("reg2bin([{s},{e}], {ms}, {d}) = {b} ≥ number of bins {nb}"))));
+            }
+            // e increases, so the last write per (s, b) is the max end for start s
+            row[b] = e as u16;
+        }
+    }
+    // prefix maximum over starts: m[x][b] = max over s ≤ x
+    for x in 2..=(p as usize) {
+        for b in 0..nb {
+            let prev = m[(x - 1) * nb + b];
+            if prev > m[x * nb + b] {
+                m[x * nb + b] = prev;
+            }
+        }
+    }
+    Ok((GeomTables { p, nb, m }, compared))
+}
+
+fn find_witness(ms: u8, d: u8, b: usize, rs: u64, re: u64, p: u64) -> (u64, u64) {
+    for s in 1..=re.min(p) {
+        for e in s.max(rs)..=p {
+            if csi::verif::reg2bin(pos(s), pos(e), ms, d) == b {
+                return (s, e);
+            }
+        }
+    }
+    (rs, rs)
+}
+
+fn run_containment(sc: &ShardCtx, rec: &mut Recorder) {
+    if let Err(e) = binning::self_check() {
+        rec.record(&|| serde_json::json!({"oracle": "binning::self_check"}), Err(err1("c17.oracle-disagrees", e)));
+        return;
+    }
+    let max_positions: u64 = sc.tier.pick(512, 4096);
+    for (ms, d) in SMALL_GEOMETRIES {
+        let p = binning::n_positions(ms as u32, d as u32);
+        if p > max_positions {
+            continue;
+        }
+        let (t, compared) = match build_tables(ms, d, sc.shard, sc.nshards) {
+            Ok(x) => x,
+            Err((case, fails)) => {
+                rec.record(&|| serde_json::to_value(&case).unwrap_or_default(), Err(fails));
+                return;
+            }
+        };
+        let nb = t.nb;
+        let mut bv = BitVec::from_elem(Bin::max_id(d), false);
+        // sanity of the fast bit access used below
+        let mut tests = 0u64;
+        let mut regions = 0u64;
+        let mut extra_bins = 0u64;
+        let mut failure: Option<(PairCase, Vec<Fail>)> = None;
+        'outer: for rs in 1..=t.p {
+            if (rs as usize) % sc.nshards != sc.shard {
+                continue;
+            }
+            for re in rs..=t.p {
+                hook_bins(rs, re, ms, d, &mut bv);
+                regions += 1;
+                let row = &t.m[(re as usize) * nb..(re as usize + 1) * nb];
+                for (b, &maxend) in row.iter().enumerate() {
+                    let needed = maxend as u64 >= rs;
+                    let listed = bv.get(b).unwrap_or(false);
+                    if needed && !listed {
+                        let feature = find_witness(ms, d, b, rs, re, t.p);
+                        let case = PairCase { min_shift: ms, depth: d, feature, region: (rs, re) };
+                        let fails = match check_pair(&case) {
+                            Err(f) => f,
+                            Ok(_) => err1("c17.containment", format!("bin {b} needed for region [{rs},{re}] but not listed (witness search failed)")),
+                        };
+                        failure = Some((case, fails));
+                        break 'outer;
+                    }
+                    if listed && !needed {
+                        extra_bins += 1;
+                    }
+                }
+                tests += nb as u64;
+            }
+        }
+        if let Some((case, fails)) = failure {
+            rec.record(&|| serde_json::to_value(&case).unwrap_or_default(), Err(fails));
+            return;
+        }
+        let geom_label: &'static str = match (ms, d) {
+            (1, 1) => "geom(1,1)",
+            (2, 1) => "geom(2,1)",
+            (3, 1) => "geom(3,1)",
+            (1, 2) => "geom(1,2)",
+            (2, 2) => "geom(2,2)",
+            (3, 2) => "geom(3,2)",
+            (1, 3) => "geom(1,3)",
+            (2, 3) => "geom(2,3)",
+            _ => "geom(3,3)",
+        };
+        let summary = serde_json::json!({"min_shift": ms, "depth": d, "positions": t.p, "bins": nb, "shard": sc.shard, "regions": regions, "bit_tests": tests, "reg2bin_compared": compared, "listed_but_never_needed": extra_bins});
+        let pass = Pass::new(true, mix(ms as u64 * 16 + d as u64, sc.shard as u64)).evals(tests + compared).label(geom_label).label_if(extra_bins > 0, "reg2bins-lists-unneeded-bins");
+        if !rec.record(&|| summary.clone(), Ok(pass)) {
+            return;
+        }
+    }
+}
+
+// ------------------------------------------------------------------------------------------------
+// (a') sampled pairs through the public path
+// ------------------------------------------------------------------------------------------------
+
+const PUBLIC_GEOMETRIES: [(u8, u8); 5] = [(14, 5), (14, 6), (12, 5), (10, 4), (16, 4)];
+
+#[derive(Clone, Debug, Serialize, Deserialize)]
+pub struct PubPair {
+    pub feature: (u64, u64),
+    /// None = unbounded
+    pub region: (Option<u64>, Option<u64>),
+}
+
+#[derive(Clone, Debug, Serialize, Deserialize)]
+pub struct PubPairsCase {
+    pub min_shift: u8,
+    pub depth: u8,
+    pub pairs: Vec<PubPair>,
+}
+
+/// One-based position in `[1, maxpos]`, dense around bin edges of every level.
+fn edge_pos(ms: u32, depth: u32) -> BoxedStrategy<u64> {
+    let maxpos = binning::n_positions(ms, depth) - 1;
+    let edge = (0..=depth, any::<u32>(), -3i64..=3).prop_map(move |(lvl, k, delta)| {
+        let w = ms + 3 * lvl;
+        let nbins = 1u64 << (3 * (depth - lvl));
+        let kk = ((k as u64) * (nbins + 1)) >> 32; // 0..=nbins
+        let x = ((kk << w) as i64) + delta + 1;
+        x.clamp(1, maxpos as i64) as u64
+    });
+    prop_oneof![4 => edge, 1 => 1u64..=maxpos, 1 => Just(1u64), 1 => Just(maxpos)].boxed()
+}
+
+fn extent(ms: u32, depth: u32) -> BoxedStrategy<u64> {
+    let maxpos = binning::n_positions(ms, depth) - 1;
+    let win = (0..=depth, -2i64..=2).prop_map(move |(lvl, dd)| (((1u64 << (ms + 3 * lvl)) as i64) + dd).max(0) as u64);
+    prop_oneof![4 => 0u64..4, 3 => win, 1 => 0u64..=maxpos, 1 => (0u64..20).prop_map(|k| 1u64 << k)].boxed()
+}
+
+fn pub_pair(ms: u32, depth: u32) -> BoxedStrategy<PubPair> {
+    let maxpos = binning::n_positions(ms, depth) - 1;
+    (edge_pos(ms, depth), extent(ms, depth), extent(ms, depth), proptest::option::weighted(0.9, extent(ms, depth)), proptest::option::weighted(0.9, extent(ms, depth)))
+        .prop_map(move |(p, fl, fr, rl, rr)| {
+            let fs = p.saturating_sub(fl).max(1);
+            let fe = p.saturating_add(fr).min(maxpos);
+            let rs = rl.map(|x| p.saturating_sub(x).max(1));
+            let re = rr.map(|x| p.saturating_add(x).min(maxpos));
+            PubPair { feature: (fs, fe), region: (rs, re) }
+        })
+        .boxed()
+}
+
+fn pub_pairs_strategy(_tier: Tier) -> BoxedStrategy<PubPairsCase> {
+    (0usize..PUBLIC_GEOMETRIES.len())
+        .prop_flat_map(|g| {
+            let (ms, d) = PUBLIC_GEOMETRIES[g];
+            proptest::collection::vec(pub_pair(ms as u32, d as u32), 1..=16).prop_map(move |pairs| PubPairsCase { min_shift: ms, depth: d, pairs })
+        })
+        .boxed()
+}
+
+fn interval_of(region: (Option<u64>, Option<u64>)) -> noodles_core::region::Interval {
+    match region {
+        (Some(s), Some(e)) => (pos(s)..=pos(e)).into(),
+        (Some(s), None) => (pos(s)..).into(),
+        (None, Some(e)) => (..=pos(e)).into(),
+        (None, None) => (..).into(),
+    }
+}
+
+fn one_record_query<I>(ms: u8, d: u8, f: (u64, u64), region: (Option<u64>, Option<u64>), chunk: Chunk) -> Result<(Vec<Chunk>, Vec<usize>), Vec<Fail>>
+where
+    I: csi::binning_index::index::reference_sequence::Index + Default,
+{
+    let mut ix = Indexer::<I>::new(ms, d);
+    ix.add_record(Some((0, pos(f.0), pos(f.1), true)), chunk).map_err(|e| err1("c17.pairs.add-record-error", format!("add_record([{},{}]) with ({ms},{d}): {e}", f.0, f.1)))?;
+    let index = ix.build(1);
+    let bins: Vec<usize> = index.reference_sequences()[0].bins().keys().copied().collect();
+    let chunks = index.query(0, interval_of(region)).map_err(|e| err1("c17.pairs.query-error", format!("query({region:?}) on a ({ms},{d}) index rejected a region inside the geometry: {e}")))?;
+    Ok((chunks, bins))
+}
+
+fn check_pub_pairs(c: &PubPairsCase) -> Verdict {
+    let (ms, d) = (c.min_shift, c.depth);
+    let chunk = Chunk::new(vp(100 << 16), vp(200 << 16));
+    let mut fails = Fails::new();
+    let mut above_leaf = false;
+    let mut unbounded = false;
+    let mut cross = false;
+    for p in &c.pairs {
+        let (fs, fe) = p.feature;
+        let rs = p.region.0.unwrap_or(1);
+        let re = p.region.1.unwrap_or(u64::MAX);
+        if !(fs >= 1 && fs <= fe && rs <= re && fs <= re && rs <= fe) {
+            // shrinking can produce non-intersecting or inverted pairs: nothing to assert
+            continue;
+        }
+        unbounded |= p.region.0.is_none() || p.region.1.is_none();
+        let want_bin = binning::reg2bin_1based(fs, fe, ms as u32, d as u32);
+        above_leaf |= binning::bin_level(want_bin, d as u32) != Some(d as u32);
+        cross |= (fs - 1) >> ms != (fe - 1) >> ms;
+        match one_record_query::<BinnedIndex>(ms, d, p.feature, p.region, chunk) {
+            Ok((chunks, bins)) => {
+                if bins != vec![want_bin as usize] {
+                    fails.push("c17.pairs.indexer-bin", format!("Indexer({ms},{d}) put [{fs},{fe}] into bins {bins:?}; specification reg2bin gives {want_bin}"));
+                }
+                if chunks != vec![chunk] {
+                    fails.push("c17.pairs.binned.containment", format!("({ms},{d}) BinnedIndex: feature [{fs},{fe}] (bin {want_bin}) intersects region {:?} but query returned {chunks:?}", p.region));
+                }
+            }
+            Err(f) => fails.0.extend(f),
+        }
+        match one_record_query::<LinearIndex>(ms, d, p.feature, p.region, chunk) {
+            Ok((chunks, _)) => {
+                if chunks != vec![chunk] {
+                    fails.push("c17.pairs.linear.containment", format!("({ms},{d}) LinearIndex: feature [{fs},{fe}] (bin {want_bin}) intersects region {:?} but query returned {chunks:?}", p.region));
+                }
+            }
+            Err(f) => fails.0.extend(f),
+        }
+        if !fails.is_empty() {
+            break;
+        }
+    }
+    let geom: &'static str = match (ms, d) {
+        (14, 5) => "geom(14,5)",
+        (14, 6) => "geom(14,6)",
+        (12, 5) => "geom(12,5)",
+        (10, 4) => "geom(10,4)",
+        _ => "geom(16,4)",
+    };
+    fails.finish(Pass::new(true, key_of(c)).evals(c.pairs.len() as u64 * 2).label(geom).label_if(above_leaf, "feature-above-leaf").label_if(unbounded, "unbounded-region").label_if(cross, "feature-crosses-window"))
+}
+
+// ------------------------------------------------------------------------------------------------
+// (b) chunk optimisation
+// ------------------------------------------------------------------------------------------------
+
+#[derive(Clone, Debug, Serialize, Deserialize)]
+pub struct ChunksCase {
+    /// (start, end) raw virtual positions, start ≤ end
+    pub chunks: Vec<(u64, u64)>,
+    pub min_offset: u64,
+}
+
+fn chunks_strategy(_tier: Tier) -> BoxedStrategy<ChunksCase> {
+    // small coordinate universe → dense overlaps / touching / nesting; a scale factor moves the
+    // same shapes to realistic virtual positions (compressed offset << 16 | in-block offset)
+    let chunk = prop_oneof![
+        6 => (0u64..60, 0u64..12).prop_map(|(s, l)| (s, s + l)),
+        1 => (0u64..60, 0u64..60).prop_map(|(a, b)| (a.min(b), a.max(b))),
+        1 => (0u64..60).prop_map(|s| (s, s)),
+    ];
+    (proptest::collection::vec(chunk, 0..14), 0u64..64, prop_oneof![3 => Just(1u64), 1 => Just(1u64 << 16), 1 => Just(65_537u64), 1 => Just(1u64 << 40)], any::<bool>())
+        .prop_map(|(chunks, m, scale, sorted)| {
+            let mut chunks: Vec<(u64, u64)> = chunks.into_iter().map(|(s, e)| (s * scale, e * scale)).collect();
+            if sorted {
+                chunks.sort();
+            }
+            ChunksCase { chunks, min_offset: m * scale }
+        })
+        .boxed()
+}
+
+/// Canonical coverage: sorted, merged (touching or overlapping), without empty ranges.
+fn coverage(chunks: &[(u64, u64)]) -> Vec<(u64, u64)> {
+    let mut v: Vec<(u64, u64)> = chunks.iter().copied().filter(|(s, e)| s < e).collect();
+    v.sort();
+    let mut out: Vec<(u64, u64)> = Vec::new();
+    for (s, e) in v {
+        match out.last_mut() {
+            Some(last) if s <= last.1 => {
+                if e > last.1 {
+                    last.1 = e;
+                }
+            }
+            _ => out.push((s, e)),
+        }
+    }
+    out
+}
+
+fn raw(c: &Chunk) -> (u64, u64) {
+    (u64::from(c.start()), u64::from(c.end()))
+}
+
+fn covers(sup: &[(u64, u64)], sub: &[(u64, u64)]) -> bool {
+    // both canonical
+    sub.iter().all(|(s, e)| sup.iter().any(|(a, b)| a <= s && e <= b))
+}
+
+fn check_chunks(c: &ChunksCase) -> Verdict {
+    let input: Vec<Chunk> = c.chunks.iter().map(|&(s, e)| Chunk::new(vp(s), vp(e))).collect();
+    let mut fails = Fails::new();
+    for (name, m, out) in [("optimize_chunks", c.min_offset, optimize_chunks(&input, vp(c.min_offset))), ("merge_chunks", 0, merge_chunks(&input))] {
+        let out: Vec<(u64, u64)> = out.iter().map(raw).collect();
+        let retained: Vec<(u64, u64)> = c.chunks.iter().copied().filter(|&(_, e)| e > m).collect();
+        let want = coverage(&retained);
+        let got = coverage(&out);
+        if got != want {
+            let sig = if !covers(&got, &want) { format!("c17.chunks.{name}.uncovered") } else { format!("c17.chunks.{name}.extra-coverage") };
+            fails.push(sig, format!("{name}({:?}, min_offset={m}): output {out:?} covers {got:?}; the chunks with end > min_offset cover {want:?}", c.chunks));
+        }
+        for w in out.windows(2) {
+            if w[0].0 > w[1].0 {
+                fails.push(format!("c17.chunks.{name}.unsorted"), format!("{name}: output not sorted by start: {out:?}"));
+                break;
+            }
+            if w[0].1 > w[1].0 {
+                fails.push(format!("c17.chunks.{name}.overlap"), format!("{name}: output chunks overlap: {out:?}"));
+                break;
+            }
+        }
+        for o in &out {
+            if o.0 > o.1 {
+                fails.push(format!("c17.chunks.{name}.inverted"), format!("{name}: output chunk with start > end: {out:?}"));
+            }
+        }
+    }
+    let n = c.chunks.len();
+    let mut overlapping = false;
+    let mut touching = false;
+    let mut nested = false;
+    for i in 0..n {
+        for j in 0..n {
+            if i == j {
+                continue;
+            }
+            let (a, b) = (c.chunks[i], c.chunks[j]);
+            if a.0 < b.0 && b.0 < a.1 && a.1 < b.1 {
+                overlapping = true;
+            }
+            if a.1 == b.0 && a.0 < a.1 && b.0 < b.1 {
+                touching = true;
+            }
+            if a.0 <= b.0 && b.1 <= a.1 && (a.0 < b.0 || b.1 < a.1) && b.0 < b.1 {
+                nested = true;
+            }
+        }
+    }
+    let unsorted = c.chunks.windows(2).any(|w| w[0].0 > w[1].0);
+    let end_eq_min = c.chunks.iter().any(|&(_, e)| e == c.min_offset);
+    let straddles_min = c.chunks.iter().any(|&(s, e)| s < c.min_offset && c.min_offset < e);
+    fails.finish(
+        Pass::new(n >= 2 && (overlapping || touching || nested), key_of(c))
+            .label_if(overlapping, "overlapping")
+            .label_if(touching, "touching")
+            .label_if(nested, "nested")
+            .label_if(unsorted, "unsorted-input")
+            .label_if(end_eq_min, "chunk-end==min_offset")
+            .label_if(straddles_min, "chunk-straddles-min_offset")
+            .label_if(n == 0, "empty-list")
+            .label_if(c.chunks.iter().any(|(s, e)| s == e), "empty-chunk"),
+    )
+}
+
+// ------------------------------------------------------------------------------------------------
+// (c) round trips of the binning indexes
+// ------------------------------------------------------------------------------------------------
+
+#[derive(Clone, Debug, Serialize, Deserialize, PartialEq)]
+pub struct BinSpec {
+    /// selector into the valid bin ids of the geometry (monotone)
+    pub id_sel: u32,
+    pub loffset: u64,
+    pub chunks: Vec<(u64, u64)>,
+}
+
+#[derive(Clone, Debug, Serialize, Deserialize, PartialEq)]
+pub struct RefSpec {
+    pub bins: Vec<BinSpec>,
+    pub linear: Vec<u64>,
+    /// (ref_beg, ref_end, n_mapped, n_unmapped)
+    pub metadata: Option<(u64, u64, u64, u64)>,
+}
+
+#[derive(Clone, Debug, Serialize, Deserialize, PartialEq)]
+pub struct HeaderSpec {
+    /// 0 generic/GFF coordinates, 1 generic/BED coordinates, 2 SAM, 3 VCF
+    pub format: u8,
+    pub col_seq: u32,
+    pub col_beg: u32,
+    /// for the generic formats: None or a column different from col_beg
+    pub col_end: Option<u32>,
+    pub meta: u8,
+    pub skip: u32,
+    pub names: Vec<Vec<u8>>,
+}
+
+/// A synthetic record for the indexer-built variants: (reference, start, end, mapped, chunk length).
+#[derive(Clone, Debug, Serialize, Deserialize, PartialEq)]
+pub struct SynRec {
+    pub rid: u8,
+    pub start: u64,
+    pub len: u64,
+    pub mapped: bool,
+    /// virtual-offset length of the record's chunk (≥ 1)
+    pub vlen: u16,
+}
+
+#[derive(Clone, Debug, Serialize, Deserialize, PartialEq)]
+pub enum Source {
+    /// bins / offsets as given
+    Arbitrary { refs: Vec<RefSpec> },
+    /// CSI only: per-bin offsets chosen so that a child never has a larger offset than any ancestor
+    /// (any "minimum over ancestors" rewrite is the identity there)
+    Descending { refs: Vec<RefSpec> },
+    /// built by the public indexers from a coordinate-sorted synthetic record list
+    Indexed { n_ref: u8, recs: Vec<SynRec>, unplaced: u8 },
+}
+
+#[derive(Clone, Debug, Serialize, Deserialize, PartialEq)]
+pub enum Kind {
+    Bai,
+    Tabix,
+    Csi { min_shift: u8, depth: u8, with_header: bool },
+}
+
+#[derive(Clone, Debug, Serialize, Deserialize)]
+pub struct RtCase {
+    pub kind: Kind,
+    pub source: Source,
+    pub header: HeaderSpec,
+    pub n_no_coor: Option<u64>,
+    /// query battery: (reference selector, start, end) with None = unbounded
+    pub battery: Vec<(u8, Option<u64>, Option<u64>)>,
+}
+
+fn vpos_strategy() -> BoxedStrategy<u64> {
+    prop_oneof![
+        4 => (0u64..5000, 0u64..65536).prop_map(|(c, u)| (c << 16) | u),
+        2 => 0u64..100_000,
+        1 => any::<u64>(),
+        1 => Just(0u64),
+        1 => Just(u64::MAX),
+    ]
+    .boxed()
+}
+
+fn chunk_list() -> BoxedStrategy<Vec<(u64, u64)>> {
+    prop_oneof![
+        3 => proptest::collection::vec((0u64..2000, 1u64..3000), 0..5).prop_map(|v| {
+            // sorted, non-overlapping like an indexer would produce
+            let mut at = 0u64;
+            v.into_iter()
+                .map(|(gap, len)| {
+                    let s = at + gap;
+                    let e = s + len;
+                    at = e + 1;
+                    (s << 8, e << 8)
+                })
+                .collect()
+        }),
+        1 => proptest::collection::vec((vpos_strategy(), vpos_strategy()), 0..4),
+    ]
+    .boxed()
+}
+
+fn ref_spec() -> BoxedStrategy<RefSpec> {
+    (
+        proptest::collection::vec((any::<u32>(), vpos_strategy(), chunk_list()).prop_map(|(id_sel, loffset, chunks)| BinSpec { id_sel, loffset, chunks }), 0..7),
+        prop_oneof![2 => proptest::collection::vec(vpos_strategy(), 0..6), 1 => proptest::collection::vec(0u64..1000, 0..40).prop_map(|mut v| { v.sort(); v.into_iter().map(|x| x << 16).collect() })],
+        proptest::option::weighted(0.7, (vpos_strategy(), vpos_strategy(), prop_oneof![0u64..100, any::<u64>()], prop_oneof![0u64..100, any::<u64>()])),
+    )
+        .prop_map(|(bins, linear, metadata)| RefSpec { bins, linear, metadata })
+        .boxed()
+}
+
+fn name_bytes() -> BoxedStrategy<Vec<u8>> {
+    prop_oneof![
+        4 => "[!-~]{1,12}".prop_map(|s| s.into_bytes()),
+        3 => proptest::collection::vec(1u8..=255, 0..10),
+        1 => proptest::collection::vec(any::<u8>(), 1..6), // may contain NUL
+        1 => Just(Vec::new()),
+        1 => "chr[0-9]{1,2}".prop_map(|s| s.into_bytes()),
+    ]
+    .boxed()
+}
+
+fn header_spec() -> BoxedStrategy<HeaderSpec> {
+    let col = prop_oneof![4 => 0u32..8, 1 => Just(0x7fff_fffeu32), 1 => 0u32..100_000];
+    (0u8..4, col.clone(), col.clone(), proptest::option::of(col), any::<u8>(), prop_oneof![3 => 0u32..5, 1 => Just(i32::MAX as u32), 1 => 0u32..1_000_000], proptest::collection::vec(name_bytes(), 0..6))
+        .prop_map(|(format, col_seq, col_beg, col_end, meta, skip, names)| {
+            let col_end = match (format, col_end) {
+                (2 | 3, _) => None,
+                (_, Some(e)) if e == col_beg => None,
+                (_, e) => e,
+            };
+            // names are a set
+            let mut uniq: Vec<Vec<u8>> = Vec::new();
+            for n in names {
+                if !uniq.contains(&n) {
+                    uniq.push(n);
+                }
+            }
+            HeaderSpec { format, col_seq, col_beg, col_end, meta, skip, names: uniq }
+        })
+        .boxed()
+}
+
+fn syn_recs(maxpos: u64, leaf: u64) -> BoxedStrategy<Vec<SynRec>> {
+    // starts clustered around a few anchors so that long-before-short and shared leaves occur
+    let rec = (0u8..3, 0u64..6, prop_oneof![3 => 0u64..40, 1 => 0u64..400], prop_oneof![4 => 1u64..30, 2 => 1u64..400, 2 => 1u64..5000], any::<bool>(), 1u16..2000).prop_map(move |(rid, anchor, off, len_units, mapped, vlen)| {
+        let unit = (leaf / 16).max(1);
+        let start = (anchor * leaf * 9 / 2 + off * unit + 1).min(maxpos);
+        let len = (len_units * unit).min(maxpos - start + 1).max(1);
+        SynRec { rid, start, len, mapped, vlen }
+    });
+    proptest::collection::vec(rec, 0..24).boxed()
+}
+
+fn rt_strategy(_tier: Tier) -> BoxedStrategy<RtCase> {
+    let kind = prop_oneof![
+        2 => Just(Kind::Bai),
+        2 => Just(Kind::Tabix),
+        4 => (prop_oneof![3 => Just((14u8, 5u8)), 1 => Just((14u8, 6u8)), 1 => Just((12u8, 5u8)), 1 => Just((10u8, 4u8)), 1 => Just((16u8, 4u8)), 1 => Just((1u8, 1u8)), 1 => Just((3u8, 0u8)), 1 => Just((5u8, 8u8)), 1 => Just((2u8, 10u8))], any::<bool>())
+            .prop_map(|((min_shift, depth), with_header)| Kind::Csi { min_shift, depth, with_header }),
+    ];
+    kind.prop_flat_map(|kind| {
+        let (ms, d) = match kind {
+            Kind::Csi { min_shift, depth, .. } => (min_shift as u32, depth as u32),
+            _ => (14, 5),
+        };
+        let maxpos = binning::n_positions(ms, d) - 1;
+        let leaf = 1u64 << ms;
+        let refs = proptest::collection::vec(ref_spec(), 0..4);
+        let source = match kind {
+            Kind::Csi { .. } => prop_oneof![
+                2 => refs.clone().prop_map(|refs| Source::Arbitrary { refs }),
+                2 => refs.prop_map(|refs| Source::Descending { refs }),
+                3 => (0u8..4, syn_recs(maxpos, leaf), 0u8..4).prop_map(|(n_ref, recs, unplaced)| Source::Indexed { n_ref, recs, unplaced }),
+            ]
+            .boxed(),
+            _ => prop_oneof![
+                3 => refs.prop_map(|refs| Source::Arbitrary { refs }),
+                2 => (0u8..4, syn_recs(maxpos, leaf), 0u8..4).prop_map(|(n_ref, recs, unplaced)| Source::Indexed { n_ref, recs, unplaced }),
+            ]
+            .boxed(),
+        };
+        let region_pos = prop_oneof![3 => edge_pos(ms, d), 2 => (0u64..6, 0u64..640).prop_map(move |(a, o)| (a * leaf * 9 / 2 + o * (leaf / 16).max(1) + 1).min(maxpos))];
+        let battery = proptest::collection::vec((0u8..4, proptest::option::weighted(0.85, region_pos.clone()), proptest::option::weighted(0.85, region_pos)), 0..10);
+        (Just(kind), source, header_spec(), proptest::option::weighted(0.8, prop_oneof![0u64..10, any::<u64>()]), battery).prop_map(|(kind, source, header, n_no_coor, battery)| {
+            let battery = battery
+                .into_iter()
+                .map(|(r, s, e)| match (s, e) {
+                    (Some(a), Some(b)) => (r, Some(a.min(b)), Some(a.max(b))),
+                    other => (r, other.0, other.1),
+                })
+                .collect();
+            RtCase { kind, source, header, n_no_coor, battery }
+        })
+    })
+    .boxed()
+}
+
+/// Distinct valid bin ids for a geometry from monotone selectors.
+fn bin_id(sel: u32, depth: u8) -> usize {
+    let n = binning::n_bins(depth as u32);
+    (((sel as u64) * n) >> 32) as usize
+}
+
+fn build_header(h: &HeaderSpec) -> TbxHeader {
+    let format = match h.format {
+        0 => Format::Generic(CoordinateSystem::Gff),
+        1 => Format::Generic(CoordinateSystem::Bed),
+        2 => Format::Sam,
+        _ => Format::Vcf,
+    };
+    let mut names = csi::binning_index::index::header::ReferenceSequenceNames::new();
+    for n in &h.names {
+        names.insert(bstr::BString::from(n.clone()));
+    }
+    TbxHeader::builder()
+        .set_format(format)
+        .set_reference_sequence_name_index(h.col_seq as usize)
+        .set_start_position_index(h.col_beg as usize)
+        .set_end_position_index(h.col_end.map(|x| x as usize))
+        .set_line_comment_prefix(h.meta)
+        .set_line_skip_count(h.skip)
+        .set_reference_sequence_names(names)
+        .build()
+}
+
+fn build_bins(r: &RefSpec, depth: u8) -> (indexmap::IndexMap<usize, Bin>, Vec<(usize, u64)>) {
+    let mut bins = indexmap::IndexMap::new();
+    let mut loffs = Vec::new();
+    for b in &r.bins {
+        let id = bin_id(b.id_sel, depth);
+        if bins.contains_key(&id) {
+            continue;
+        }
+        bins.insert(id, Bin::new(b.chunks.iter().map(|&(s, e)| Chunk::new(vp(s), vp(e))).collect()));
+        loffs.push((id, b.loffset));
+    }
+    (bins, loffs)
+}
+
+fn build_metadata(r: &RefSpec) -> Option<Metadata> {
+    r.metadata.map(|(a, b, c, d)| Metadata::new(vp(a), vp(b), c, d))
+}
+
+fn sorted_syn(recs: &[SynRec], n_ref: u8) -> Vec<SynRec> {
+    let mut v: Vec<SynRec> = recs.iter().filter(|r| (r.rid as usize) < n_ref as usize).cloned().collect();
+    v.sort_by_key(|r| (r.rid, r.start));
+    v
+}
+
+/// Virtual-offset chunks for a sorted synthetic record list: consecutive, starting at 1 << 16.
+fn syn_chunks(recs: &[SynRec]) -> Vec<Chunk> {
+    let mut at = 1u64 << 16;
+    recs.iter()
+        .map(|r| {
+            let s = at;
+            at += r.vlen.max(1) as u64 * 7;
+            Chunk::new(vp(s), vp(at))
+        })
+        .collect()
+}
+
+fn linear_index_of(c: &RtCase, with_header: bool) -> Result<csi::binning_index::Index<LinearIndex>, Vec<Fail>> {
+    match &c.source {
+        Source::Arbitrary { refs } | Source::Descending { refs } => {
+            let rs: Vec<ReferenceSequence<LinearIndex>> = refs
+                .iter()
+                .map(|r| {
+                    let (bins, _) = build_bins(r, 5);
+                    ReferenceSequence::new(bins, r.linear.iter().map(|&x| vp(x)).collect(), build_metadata(r))
+                })
+                .collect();
+            let mut b = csi::binning_index::Index::<LinearIndex>::builder().set_reference_sequences(rs);
+            if with_header {
+                b = b.set_header(build_header(&c.header));
+            }
+            if let Some(n) = c.n_no_coor {
+                b = b.set_unplaced_unmapped_record_count(n);
+            }
+            Ok(b.build())
+        }
+        Source::Indexed { n_ref, recs, unplaced } => {
+            let recs = sorted_syn(recs, *n_ref);
+            let chunks = syn_chunks(&recs);
+            let mut ix = Indexer::<LinearIndex>::default();
+            if with_header {
+                ix = ix.set_header(build_header(&c.header));
+            }
+            for (r, ch) in recs.iter().zip(&chunks) {
+                ix.add_record(Some((r.rid as usize, pos(r.start), pos(r.start + r.len - 1), r.mapped)), *ch).map_err(|e| err1("c17.rt.indexer-error", format!("Indexer<LinearIndex>::add_record: {e}")))?;
+            }
+            let tail = chunks.last().map(|c| c.end()).unwrap_or(vp(1 << 16));
+            for _ in 0..*unplaced {
+                ix.add_record(None, Chunk::new(tail, tail)).map_err(|e| err1("c17.rt.indexer-error", format!("add_record(None): {e}")))?;
+            }
+            Ok(ix.build(*n_ref as usize))
+        }
+    }
+}
+
+fn csi_index_of(c: &RtCase, ms: u8, d: u8, with_header: bool) -> Result<csi::Index, Vec<Fail>> {
+    match &c.source {
+        Source::Arbitrary { refs } | Source::Descending { refs } => {
+            let descending = matches!(c.source, Source::Descending { .. });
+            let rs: Vec<ReferenceSequence<BinnedIndex>> = refs
+                .iter()
+                .map(|r| {
+                    let (bins, loffs) = build_bins(r, d);
+                    let index: BinnedIndex = loffs
+                        .iter()
+                        .map(|&(id, l)| {
+                            let v = if descending {
+                                // deeper level ⇒ strictly smaller offset than any shallower bin
+                                let lvl = binning::bin_level(id as u64, d as u32).unwrap_or(0) as u64;
+                                (u64::from(d) - lvl) * (1 << 32) + (l & 0xffff_ffff)
+                            } else {
+                                l
+                            };
+                            (id, vp(v))
+                        })
+                        .collect();
+                    ReferenceSequence::new(bins, index, build_metadata(r))
+                })
+                .collect();
+            let mut b = csi::Index::builder().set_min_shift(ms).set_depth(d).set_reference_sequences(rs);
+            if with_header {
+                b = b.set_header(build_header(&c.header));
+            }
+            if let Some(n) = c.n_no_coor {
+                b = b.set_unplaced_unmapped_record_count(n);
+            }
+            Ok(b.build())
+        }
+        Source::Indexed { n_ref, recs, unplaced } => {
+            let recs = sorted_syn(recs, *n_ref);
+            let chunks = syn_chunks(&recs);
+            let mut ix = Indexer::<BinnedIndex>::new(ms, d);
+            if with_header {
+                ix = ix.set_header(build_header(&c.header));
+            }
+            for (r, ch) in recs.iter().zip(&chunks) {
+                ix.add_record(Some((r.rid as usize, pos(r.start), pos(r.start + r.len - 1), r.mapped)), *ch).map_err(|e| err1("c17.rt.indexer-error", format!("Indexer<BinnedIndex>::add_record: {e}")))?;
+            }
+            let tail = chunks.last().map(|c| c.end()).unwrap_or(vp(1 << 16));
+            for _ in 0..*unplaced {
+                ix.add_record(None, Chunk::new(tail, tail)).map_err(|e| err1("c17.rt.indexer-error", format!("add_record(None): {e}")))?;
+            }
+            Ok(ix.build(*n_ref as usize))
+        }
+    }
+}
+
+// ---- independent byte-level walkers of the three binning index formats -------------------------
+
+struct Cur<'a> {
+    b: &'a [u8],
+    at: usize,
+}
+
+impl<'a> Cur<'a> {
+    fn take(&mut self, n: usize) -> Result<&'a [u8], String> {
+        if self.at + n > self.b.len() {
+            return Err(format!("walker: need {n} bytes at offset {}, file has {}", self.at, self.b.len()));
+        }
+        let s = &self.b[self.at..self.at + n];
+        self.at += n;
+        Ok(s)
+    }
+    fn i32(&mut self) -> Result<i32, String> {
+        Ok(i32::from_le_bytes(self.take(4)?.try_into().map_err(|_| "slice")?))
+    }
+    fn u32(&mut self) -> Result<u32, String> {
+        Ok(u32::from_le_bytes(self.take(4)?.try_into().map_err(|_| "slice")?))
+    }
+    fn u64(&mut self) -> Result<u64, String> {
+        Ok(u64::from_le_bytes(self.take(8)?.try_into().map_err(|_| "slice")?))
+    }
+    fn rest(&self) -> usize {
+        self.b.len() - self.at
+    }
+}
+
+#[derive(Debug, Default, PartialEq, Clone)]
+struct RawBin {
+    id: u32,
+    loffset: Option<u64>,
+    chunks: Vec<(u64, u64)>,
+}
+
+#[derive(Debug, Default, PartialEq, Clone)]
+struct RawRef {
+    bins: Vec<RawBin>,
+    linear: Option<Vec<u64>>,
+}
+
+#[derive(Debug, Default, PartialEq, Clone)]
+struct RawHeader {
+    format: i32,
+    col_seq: i32,
+    col_beg: i32,
+    col_end: i32,
+    meta: i32,
+    skip: i32,
+    names_blob: Vec<u8>,
+}
+
+#[derive(Debug, Default, PartialEq, Clone)]
+struct RawIndex {
+    min_shift: Option<i32>,
+    depth: Option<i32>,
+    header: Option<RawHeader>,
+    refs: Vec<RawRef>,
+    n_no_coor: Option<u64>,
+}
+
+fn walk_tbx_header(c: &mut Cur) -> Result<RawHeader, String> {
+    let format = c.i32()?;
+    let col_seq = c.i32()?;
+    let col_beg = c.i32()?;
+    let col_end = c.i32()?;
+    let meta = c.i32()?;
+    let skip = c.i32()?;
+    let l_nm = c.i32()?;
+    if l_nm < 0 {
+        return Err(format!("walker: negative l_nm {l_nm}"));
+    }
+    let names_blob = c.take(l_nm as usize)?.to_vec();
+    Ok(RawHeader { format, col_seq, col_beg, col_end, meta, skip, names_blob })
+}
+
+fn walk_bins(c: &mut Cur, with_loffset: bool) -> Result<Vec<RawBin>, String> {
+    let n_bin = c.i32()?;
+    if n_bin < 0 {
+        return Err(format!("walker: negative n_bin {n_bin}"));
+    }
+    let mut bins = Vec::new();
+    for _ in 0..n_bin {
+        let id = c.u32()?;
+        let loffset = if with_loffset { Some(c.u64()?) } else { None };
+        let n_chunk = c.i32()?;
+        if n_chunk < 0 {
+            return Err(format!("walker: negative n_chunk {n_chunk}"));
+        }
+        let mut chunks = Vec::new();
+        for _ in 0..n_chunk {
+            chunks.push((c.u64()?, c.u64()?));
+        }
+        bins.push(RawBin { id, loffset, chunks });
+    }
+    Ok(bins)
+}
+
+fn walk_linear(c: &mut Cur) -> Result<Vec<u64>, String> {
+    let n = c.i32()?;
+    if n < 0 {
+        return Err(format!("walker: negative n_intv {n}"));
+    }
+    (0..n).map(|_| c.u64()).collect()
+}
+
+fn walk_tail(c: &mut Cur) -> Result<Option<u64>, String> {
+    match c.rest() {
+        0 => Ok(None),
+        8 => Ok(Some(c.u64()?)),
+        n => Err(format!("walker: {n} trailing bytes after the last reference (expected 0 or 8)")),
+    }
+}
+
+/// BAI per SAM specification §5.2.
+fn walk_bai(bytes: &[u8]) -> Result<RawIndex, String> {
+    let mut c = Cur { b: bytes, at: 0 };
+    if c.take(4)? != b"BAI\x01" {
+        return Err("walker: BAI magic".into());
+    }
+    let n_ref = c.i32()?;
+    let mut refs = Vec::new();
+    for _ in 0..n_ref {
+        let bins = walk_bins(&mut c, false)?;
+        let linear = walk_linear(&mut c)?;
+        refs.push(RawRef { bins, linear: Some(linear) });
+    }
+    let n_no_coor = walk_tail(&mut c)?;
+    Ok(RawIndex { min_shift: None, depth: None, header: None, refs, n_no_coor })
+}
+
+/// Tabix per the tabix specification (payload after BGZF decompression).
+fn walk_tbi(bytes: &[u8]) -> Result<RawIndex, String> {
+    let mut c = Cur { b: bytes, at: 0 };
+    if c.take(4)? != b"TBI\x01" {
+        return Err("walker: TBI magic".into());
+    }
+    let n_ref = c.i32()?;
+    let header = walk_tbx_header(&mut c)?;
+    let mut refs = Vec::new();
+    for _ in 0..n_ref {
+        let bins = walk_bins(&mut c, false)?;
+        let linear = walk_linear(&mut c)?;
+        refs.push(RawRef { bins, linear: Some(linear) });
+    }
+    let n_no_coor = walk_tail(&mut c)?;
+    Ok(RawIndex { min_shift: None, depth: None, header: Some(header), refs, n_no_coor })
+}
+
+/// CSI per CSIv1 (payload after BGZF decompression).
+fn walk_csi(bytes: &[u8]) -> Result<RawIndex, String> {
+    let mut c = Cur { b: bytes, at: 0 };
+    if c.take(4)? != b"CSI\x01" {
+        return Err("walker: CSI magic".into());
+    }
+    let min_shift = c.i32()?;
+    let depth = c.i32()?;
+    let l_aux = c.i32()?;
+    if l_aux < 0 {
+        return Err(format!("walker: negative l_aux {l_aux}"));
+    }
+    let aux = c.take(l_aux as usize)?;
+    let header = if l_aux > 0 {
+        let mut a = Cur { b: aux, at: 0 };
+        let h = walk_tbx_header(&mut a)?;
+        if a.rest() != 0 {
+            return Err(format!("walker: {} unused aux bytes", a.rest()));
+        }
+        Some(h)
+    } else {
+        None
+    };
+    let n_ref = c.i32()?;
+    let mut refs = Vec::new();
+    for _ in 0..n_ref {
+        let bins = walk_bins(&mut c, true)?;
+        refs.push(RawRef { bins, linear: None });
+    }
+    let n_no_coor = walk_tail(&mut c)?;
+    Ok(RawIndex { min_shift: Some(min_shift), depth: Some(depth), header, refs, n_no_coor })
+}
+
+fn expected_raw_header(h: &HeaderSpec) -> RawHeader {
+    let format = match h.format {
+        0 => 0,
+        1 => 0x10000,
+        2 => 1,
+        _ => 2,
+    };
+    let col_end = match h.format {
+        2 | 3 => 0,
+        _ => h.col_end.unwrap_or(h.col_beg) as i32 + 1,
+    };
+    let mut blob = Vec::new();
+    for n in &h.names {
+        blob.extend_from_slice(n);
+        blob.push(0);
+    }
+    RawHeader { format, col_seq: h.col_seq as i32 + 1, col_beg: h.col_beg as i32 + 1, col_end, meta: h.meta as i32, skip: h.skip as i32, names_blob: blob }
+}
+
+/// What the file must contain for reference `r` given the in-memory value (bins in any order;
+/// metadata pseudo-bin = number of bins of the geometry + 1 with two pseudo-chunks).
+fn expected_raw_bins<I>(r: &ReferenceSequence<I>, depth: u8) -> BTreeMap<u32, Vec<(u64, u64)>>
+where
+    I: csi::binning_index::index::reference_sequence::Index,
+{
+    let mut m = BTreeMap::new();
+    for (id, bin) in r.bins() {
+        m.insert(*id as u32, bin.chunks().iter().map(raw).collect());
+    }
+    if let Some(md) = r.metadata() {
+        let id = binning::n_bins(depth as u32) as u32 + 1;
+        m.insert(id, vec![(u64::from(md.start_position()), u64::from(md.end_position())), (md.mapped_record_count(), md.unmapped_record_count())]);
+    }
+    m
+}
+
+fn compare_raw_refs<I>(fails: &mut Fails, fmt: &str, raw_ix: &RawIndex, refs: &[ReferenceSequence<I>], depth: u8)
+where
+    I: csi::binning_index::index::reference_sequence::Index,
+{
+    if raw_ix.refs.len() != refs.len() {
+        fails.push(format!("c17.{fmt}.bytes.n_ref"), format!("file holds {} references, index has {}", raw_ix.refs.len(), refs.len()));
+        return;
+    }
+    for (i, (rr, r)) in raw_ix.refs.iter().zip(refs).enumerate() {
+        let mut got = BTreeMap::new();
+        let mut dup = false;
+        for b in &rr.bins {
+            dup |= got.insert(b.id, b.chunks.clone()).is_some();
+        }
+        if dup {
+            fails.push(format!("c17.{fmt}.bytes.duplicate-bin"), format!("reference {i}: a bin id is written twice: {:?}", rr.bins.iter().map(|b| b.id).collect::<Vec<_>>()));
+        }
+        let want = expected_raw_bins(r, depth);
+        if got != want {
+            fails.push(format!("c17.{fmt}.bytes.bins"), format!("reference {i}: bins in the file {} ≠ bins of the index {}", trunc(&format!("{got:?}"), 500), trunc(&format!("{want:?}"), 500)));
+        }
+    }
+}
+
+fn inflate_bgzf(bytes: &[u8]) -> Result<Vec<u8>, Vec<Fail>> {
+    let members = bgzf_walk::walk(bytes).map_err(|e| err1("c17.rt.bgzf-malformed", format!("index file is not well-formed BGZF: {e}")))?;
+    Ok(bgzf_walk::concat(&members))
+}
+
+/// Query battery: for every (reference, interval) the chunk list or the error kind.
+fn battery_answers<X: BinningIndex>(ix: &X, n_ref: usize, battery: &[(u8, Option<u64>, Option<u64>)]) -> Vec<Result<Vec<(u64, u64)>, String>> {
+    battery
+        .iter()
+        .map(|&(r, s, e)| {
+            let rid = if n_ref == 0 { 0 } else { (r as usize) % n_ref };
+            ix.query(rid, interval_of((s, e))).map(|v| v.iter().map(raw).collect()).map_err(|e| format!("{:?}", e.kind()))
+        })
+        .collect()
+}
+
+fn check_rt(c: &RtCase) -> Verdict {
+    let mut fails = Fails::new();
+    let names_have_nul = c.header.names.iter().any(|n| n.contains(&0));
+    let mut labels: Vec<&'static str> = Vec::new();
+    let src_label = match &c.source {
+        Source::Arbitrary { .. } => "source-arbitrary",
+        Source::Descending { .. } => "source-descending-loffsets",
+        Source::Indexed { .. } => "source-indexer",
+    };
+    labels.push(src_label);
+    let nontrivial;
+
+    match &c.kind {
+        Kind::Bai => {
+            labels.push("bai");
+            let index = linear_index_of(c, false)?;
+            let mut buf = Vec::new();
+            noodles_bam::bai::io::Writer::new(&mut buf).write_index(&index).map_err(|e| err1("c17.bai.write-error", format!("bai write_index: {e}")))?;
+            let back = noodles_bam::bai::io::Reader::new(&buf[..]).read_index().map_err(|e| err1("c17.bai.read-error", format!("bai read_index of noodles' own output: {e}")))?;
+            if back != index {
+                fails.push("c17.bai.roundtrip", format!("BAI read back differs: wrote {} read {}", trunc(&format!("{index:?}"), 700), trunc(&format!("{back:?}"), 700)));
+            }
+            match walk_bai(&buf) {
+                Ok(rawix) => {
+                    compare_raw_refs(&mut fails, "bai", &rawix, index.reference_sequences(), 5);
+                    for (i, (rr, r)) in rawix.refs.iter().zip(index.reference_sequences()).enumerate() {
+                        let lin: Vec<u64> = r.index().iter().map(|&v| u64::from(v)).collect();
+                        if rr.linear.as_deref() != Some(&lin[..]) {
+                            fails.push("c17.bai.bytes.linear", format!("reference {i}: linear index in the file {:?} ≠ {:?}", rr.linear, lin));
+                        }
+                    }
+                    if rawix.n_no_coor != index.unplaced_unmapped_record_count() {
+                        fails.push("c17.bai.bytes.n_no_coor", format!("n_no_coor in the file {:?}, index has {:?}", rawix.n_no_coor, index.unplaced_unmapped_record_count()));
+                    }
+                }
+                Err(e) => fails.push("c17.bai.bytes.malformed", e),
+            }
+            nontrivial = index.reference_sequences().iter().any(|r| !r.bins().is_empty());
+            if index.reference_sequences().iter().any(|r| r.metadata().is_some()) {
+                labels.push("metadata-bin");
+            }
+        }
+        Kind::Tabix => {
+            labels.push("tabix");
+            // half of the indexer-built cases go through tabix's own name-based indexer
+            let via_tabix_indexer = matches!(c.source, Source::Indexed { .. }) && c.header.meta & 1 == 0;
+            let index = if let (true, Source::Indexed { n_ref, recs, .. }) = (via_tabix_indexer, &c.source) {
+                let recs = sorted_syn(recs, *n_ref);
+                let chunks = syn_chunks(&recs);
+                let mut ix = noodles_tabix::index::Indexer::default();
+                ix.set_header(build_header(&c.header));
+                for (r, ch) in recs.iter().zip(&chunks) {
+                    ix.add_record(&format!("sq{}", r.rid), pos(r.start), pos(r.start + r.len - 1), *ch).map_err(|e| err1("c17.rt.indexer-error", format!("tabix Indexer::add_record: {e}")))?;
+                }
+                labels.push("tabix-name-indexer");
+                ix.build()
+            } else {
+                linear_index_of(c, true)?
+            };
+            // the names the file must hold: those of the value being written
+            let names_in_value: Vec<Vec<u8>> = index.header().map(|h| h.reference_sequence_names().iter().map(|n| n.to_vec()).collect()).unwrap_or_default();
+            if via_tabix_indexer {
+                // the name-based indexer replaces the header's names by the names it saw, in order
+                let mut seen: Vec<Vec<u8>> = Vec::new();
+                if let Source::Indexed { n_ref, recs, .. } = &c.source {
+                    for r in sorted_syn(recs, *n_ref) {
+                        let n = format!("sq{}", r.rid).into_bytes();
+                        if !seen.contains(&n) {
+                            seen.push(n);
+                        }
+                    }
+                }
+                if names_in_value != seen {
+                    fails.push("c17.tabix.indexer-names", format!("tabix Indexer produced names {:?}, records named {:?}", names_in_value, seen));
+                }
+                if index.reference_sequences().len() != seen.len() {
+                    fails.push("c17.tabix.indexer-names", format!("tabix Indexer produced {} reference sequences for {} names", index.reference_sequences().len(), seen.len()));
+                }
+            }
+            let names_have_nul = names_in_value.iter().any(|n| n.contains(&0));
+            let mut w = noodles_tabix::io::Writer::new(Vec::new());
+            match w.write_index(&index) {
+                Err(e) => {
+                    if names_have_nul {
+                        // a NUL cannot be represented in the NUL-terminated name list: rejection is right
+                        return Ok(Pass::new(false, key_of(c)).label("tabix").label("nul-in-name-rejected"));
+                    }
+                    return fail1("c17.tabix.write-error", format!("tabix write_index: {e}"));
+                }
+                Ok(()) => {}
+            }
+            w.try_finish().map_err(|e| err1("c17.tabix.write-error", format!("try_finish: {e}")))?;
+            let buf = w.into_inner().into_inner();
+            let back = noodles_tabix::io::Reader::new(&buf[..]).read_index().map_err(|e| err1("c17.tabix.read-error", format!("tabix read_index of noodles' own output: {e}")))?;
+            if back != index {
+                let sig = if back.header() != index.header() { "c17.tabix.roundtrip.header" } else { "c17.tabix.roundtrip" };
+                fails.push(sig, format!("tabix read back differs: wrote {} read {}", trunc(&format!("{index:?}"), 700), trunc(&format!("{back:?}"), 700)));
+            }
+            let payload = inflate_bgzf(&buf)?;
+            match walk_tbi(&payload) {
+                Ok(rawix) => {
+                    compare_raw_refs(&mut fails, "tabix", &rawix, index.reference_sequences(), 5);
+                    for (i, (rr, r)) in rawix.refs.iter().zip(index.reference_sequences()).enumerate() {
+                        let lin: Vec<u64> = r.index().iter().map(|&v| u64::from(v)).collect();
+                        if rr.linear.as_deref() != Some(&lin[..]) {
+                            fails.push("c17.tabix.bytes.linear", format!("reference {i}: linear index in the file {:?} ≠ {:?}", rr.linear, lin));
+                        }
+                    }
+                    if rawix.n_no_coor != index.unplaced_unmapped_record_count() {
+                        fails.push("c17.tabix.bytes.n_no_coor", format!("n_no_coor in the file {:?}, index has {:?}", rawix.n_no_coor, index.unplaced_unmapped_record_count()));
+                    }
+                    let mut want = expected_raw_header(&c.header);
+                    if via_tabix_indexer {
+                        want.names_blob = names_in_value.iter().flat_map(|n| n.iter().copied().chain(std::iter::once(0u8))).collect();
+                    }
+                    if rawix.header.as_ref() != Some(&want) {
+                        fails.push("c17.tabix.bytes.header", format!("header in the file {:?} ≠ expected {:?}", rawix.header, want));
+                    }
+                }
+                Err(e) => fails.push("c17.tabix.bytes.malformed", e),
+            }
+            nontrivial = !c.header.names.is_empty() || index.reference_sequences().iter().any(|r| !r.bins().is_empty());
+            if c.header.names.iter().any(|n| n.iter().any(|&b| b >= 0x80 || b < 0x20)) {
+                labels.push("non-ascii-name");
+            }
+            if c.header.names.iter().any(|n| n.is_empty()) {
+                labels.push("empty-name");
+            }
+            if names_have_nul {
+                labels.push("nul-in-name-accepted");
+            }
+        }
+        Kind::Csi { min_shift, depth, with_header } => {
+            labels.push("csi");
+            let (ms, d) = (*min_shift, *depth);
+            let index = csi_index_of(c, ms, d, *with_header)?;
+            let mut w = csi::io::Writer::new(Vec::new());
+            match w.write_index(&index) {
+                Err(e) => {
+                    if *with_header && names_have_nul {
+                        return Ok(Pass::new(false, key_of(c)).label("csi").label("nul-in-name-rejected"));
+                    }
+                    return fail1("c17.csi.write-error", format!("csi write_index: {e}"));
+                }
+                Ok(()) => {}
+            }
+            let buf = w.into_inner().finish().map_err(|e| err1("c17.csi.write-error", format!("finish: {e}")))?;
+            let back = csi::io::Reader::new(&buf[..]).read_index().map_err(|e| err1("c17.csi.read-error", format!("csi read_index of noodles' own output: {e}")))?;
+
+            // everything but the per-bin offsets must be equal
+            if back.min_shift() != index.min_shift() || back.depth() != index.depth() {
+                fails.push("c17.csi.roundtrip.geometry", format!("geometry ({},{}) read back as ({},{})", index.min_shift(), index.depth(), back.min_shift(), back.depth()));
+            }
+            if back.header() != index.header() {
+                fails.push("c17.csi.roundtrip.header", format!("header {:?} read back as {:?}", index.header(), back.header()));
+            }
+            if back.unplaced_unmapped_record_count() != index.unplaced_unmapped_record_count() {
+                fails.push("c17.csi.roundtrip.n_no_coor", format!("unplaced count {:?} read back as {:?}", index.unplaced_unmapped_record_count(), back.unplaced_unmapped_record_count()));
+            }
+            let n_ref = index.reference_sequences().len();
+            if back.reference_sequences().len() != n_ref {
+                fails.push("c17.csi.roundtrip.n_ref", format!("{} references read back as {}", n_ref, back.reference_sequences().len()));
+            } else {
+                let mut loffset_changed = false;
+                for (i, (a, b)) in index.reference_sequences().iter().zip(back.reference_sequences()).enumerate() {
+                    if a.bins() != b.bins() {
+                        fails.push("c17.csi.roundtrip.bins", format!("reference {i}: bins {} read back as {}", trunc(&format!("{:?}", a.bins()), 500), trunc(&format!("{:?}", b.bins()), 500)));
+                    }
+                    if a.metadata() != b.metadata() {
+                        fails.push("c17.csi.roundtrip.metadata", format!("reference {i}: metadata {:?} read back as {:?}", a.metadata(), b.metadata()));
+                    }
+                    // offsets: same key set as the bins; value never larger than what was held in memory
+                    let keys_a: std::collections::BTreeSet<usize> = a.bins().keys().copied().collect();
+                    let keys_b: std::collections::BTreeSet<usize> = b.index().keys().copied().collect();
+                    if keys_a != keys_b {
+                        fails.push("c17.csi.roundtrip.loffset-keys", format!("reference {i}: per-bin offsets read back for bins {keys_b:?}, bins are {keys_a:?}"));
+                    }
+                    for (id, v) in b.index() {
+                        match a.index().get(id) {
+                            Some(orig) if v > orig => {
+                                fails.push("c17.csi.roundtrip.loffset-increased", format!("reference {i} bin {id}: loffset {} read back as the larger {}", u64::from(*orig), u64::from(*v)));
+                            }
+                            Some(orig) if v != orig => loffset_changed = true,
+                            _ => {}
+                        }
+                    }
+                }
+                let descending = matches!(c.source, Source::Descending { .. });
+                if loffset_changed {
+                    labels.push("loffset-rewritten");
+                    if descending {
+                        // no bin has an ancestor with a smaller offset here: nothing justifies a rewrite
+                        fails.push(
+                            "c17.csi.roundtrip.loffset",
+                            format!(
+                                "per-bin offsets change across write→read although no ancestor holds a smaller offset: wrote {} read {}",
+                                trunc(&format!("{:?}", index.reference_sequences().iter().map(|r| r.index().clone()).collect::<Vec<_>>()), 400),
+                                trunc(&format!("{:?}", back.reference_sequences().iter().map(|r| r.index().clone()).collect::<Vec<_>>()), 400)
+                            ),
+                        );
+                    }
+                } else if fails.is_empty() && back != index {
+                    fails.push("c17.csi.roundtrip", "CSI read back differs although every compared part is equal".to_string());
+                }
+
+                // query battery: same answers, or (offsets rewritten) at least no lost coverage
+                // (a query allocates one bit per bin of the geometry: keep the battery to depth ≤ 6)
+                let battery: &[(u8, Option<u64>, Option<u64>)] = if d <= 6 { &c.battery } else { &[] };
+                let qa = battery_answers(&index, n_ref, battery);
+                let qb = battery_answers(&back, n_ref, battery);
+                for (k, (x, y)) in qa.iter().zip(&qb).enumerate() {
+                    match (x, y) {
+                        (Ok(x), Ok(y)) => {
+                            if x != y {
+                                if !covers(&coverage(y), &coverage(x)) {
+                                    fails.push("c17.csi.roundtrip.query-lost-coverage", format!("battery {:?}: answer {x:?} before, {y:?} after write→read", c.battery[k]));
+                                } else if loffset_changed {
+                                    fails.push("c17.csi.roundtrip.query-differs.loffset-rewritten", format!("battery {:?}: answer {x:?} before, {y:?} after write→read", c.battery[k]));
+                                } else {
+                                    fails.push("c17.csi.roundtrip.query-differs", format!("battery {:?}: answer {x:?} before, {y:?} after write→read", c.battery[k]));
+                                }
+                            }
+                        }
+                        (Err(x), Err(y)) if x == y => {}
+                        _ => fails.push("c17.csi.roundtrip.query-error-differs", format!("battery {:?}: {x:?} before, {y:?} after", c.battery[k])),
+                    }
+                }
+                if !battery.is_empty() && n_ref > 0 {
+                    labels.push("battery-run");
+                }
+
+                // second generation must be a fixpoint
+                let mut w2 = csi::io::Writer::new(Vec::new());
+                if w2.write_index(&back).is_ok() {
+                    if let Ok(buf2) = w2.into_inner().finish() {
+                        match csi::io::Reader::new(&buf2[..]).read_index() {
+                            Ok(back2) => {
+                                if back2 != back {
+                                    fails.push("c17.csi.roundtrip.second-generation", format!("read(write(read(write(I)))) ≠ read(write(I)): {} vs {}", trunc(&format!("{back:?}"), 500), trunc(&format!("{back2:?}"), 500)));
+                                }
+                            }
+                            Err(e) => fails.push("c17.csi.read-error", format!("second generation read: {e}")),
+                        }
+                    }
+                }
+            }
+
+            let payload = inflate_bgzf(&buf)?;
+            match walk_csi(&payload) {
+                Ok(rawix) => {
+                    if rawix.min_shift != Some(ms as i32) || rawix.depth != Some(d as i32) {
+                        fails.push("c17.csi.bytes.geometry", format!("file says ({:?},{:?}), index is ({ms},{d})", rawix.min_shift, rawix.depth));
+                    }
+                    compare_raw_refs(&mut fails, "csi", &rawix, index.reference_sequences(), d);
+                    if rawix.n_no_coor != index.unplaced_unmapped_record_count() {
+                        fails.push("c17.csi.bytes.n_no_coor", format!("n_no_coor in the file {:?}, index has {:?}", rawix.n_no_coor, index.unplaced_unmapped_record_count()));
+                    }
+                    let want = if *with_header { Some(expected_raw_header(&c.header)) } else { None };
+                    if rawix.header != want {
+                        fails.push("c17.csi.bytes.header", format!("aux header in the file {:?} ≠ expected {:?}", rawix.header, want));
+                    }
+                    // a written loffset must never exceed the bin's own first chunk start when the index
+                    // came from the indexer (it would prune the bin's own records)
+                    if matches!(c.source, Source::Indexed { .. }) {
+                        for (i, rr) in rawix.refs.iter().enumerate() {
+                            for b in &rr.bins {
+                                if b.id as u64 >= binning::n_bins(d as u32) {
+                                    continue;
+                                }
+                                if let (Some(l), Some(first)) = (b.loffset, b.chunks.first()) {
+                                    if l > first.0 {
+                                        fails.push("c17.csi.bytes.loffset-after-first-chunk", format!("reference {i} bin {}: loffset {l} > start of its first chunk {}", b.id, first.0));
+                                    }
+                                }
+                            }
+                        }
+                    }
+                }
+                Err(e) => fails.push("c17.csi.bytes.malformed", e),
+            }
+            nontrivial = index.reference_sequences().iter().any(|r| !r.bins().is_empty());
+            if index.reference_sequences().iter().any(|r| r.metadata().is_some()) {
+                labels.push("metadata-bin");
+            }
+            if (ms, d) != (14, 5) {
+                labels.push("non-default-geometry");
+            }
+            if *with_header {
+                labels.push("csi-with-aux-header");
+            }
+        }
+    }
+    if c.n_no_coor.is_none() && !matches!(c.source, Source::Indexed { .. }) {
+        labels.push("no-n_no_coor");
+    }
+    let mut p = Pass::new(nontrivial, key_of(c));
+    for l in labels {
+        p = p.label(l);
+    }
+    fails.finish(p)
+}
+
+// ------------------------------------------------------------------------------------------------
+// (c') gzi / fai / crai
+// ------------------------------------------------------------------------------------------------
+
+#[derive(Clone, Debug, Serialize, Deserialize)]
+pub enum FlatCase {
+    Gzi(Vec<(u64, u64)>),
+    /// (name, length, offset, line_bases ≥ 1, line_width ≥ 1)
+    Fai(Vec<(String, u64, u64, u64, u64)>),
+    /// (reference id or None, start (0 = missing), span, offset, landmark, slice length)
+    Crai(Vec<(Option<u32>, u64, u64, u64, u64, u64)>),
+}
+
+fn big_u64() -> BoxedStrategy<u64> {
+    prop_oneof![3 => 0u64..100_000, 1 => any::<u64>(), 1 => Just(u64::MAX), 1 => Just(0u64), 1 => (0u32..64).prop_map(|k| 1u64 << k)].boxed()
+}
+
+fn flat_strategy(_tier: Tier) -> BoxedStrategy<FlatCase> {
+    let gzi = prop_oneof![
+        3 => proptest::collection::vec((1u64..70_000, 1u64..65_537), 0..12).prop_map(|v| {
+            let (mut c, mut u) = (0u64, 0u64);
+            v.into_iter().map(|(dc, du)| { c += dc; u += du; (c, u) }).collect()
+        }),
+        1 => proptest::collection::vec((big_u64(), big_u64()), 0..8),
+    ]
+    .prop_map(FlatCase::Gzi);
+    // FASTA names: non-empty, no whitespace; the fai reader is line/tab based
+    let name = prop_oneof![4 => "[!-~]{1,16}", 1 => "[a-zA-Z0-9_.|:*-]{1,40}", 1 => "[!-~¡-ÿĀ-ſ一-丐]{1,8}"];
+    let fai = proptest::collection::vec((name, big_u64(), big_u64(), prop_oneof![1u64..200, big_u64().prop_map(|x| x.max(1))], prop_oneof![1u64..202, big_u64().prop_map(|x| x.max(1))]), 0..8).prop_map(FlatCase::Fai);
+    let crai = proptest::collection::vec(
+        (
+            proptest::option::weighted(0.8, prop_oneof![3 => 0u32..30, 1 => Just(i32::MAX as u32), 1 => 0u32..=(i32::MAX as u32)]),
+            prop_oneof![1 => Just(0u64), 4 => 1u64..300_000_000, 1 => Just((1u64 << 31) - 1), 1 => big_u64().prop_map(|x| x.min(usize::MAX as u64))],
+            prop_oneof![3 => 0u64..100_000, 1 => big_u64().prop_map(|x| x.min(usize::MAX as u64))],
+            big_u64(),
+            big_u64(),
+            big_u64(),
+        ),
+        0..10,
+    )
+    .prop_map(FlatCase::Crai);
+    prop_oneof![gzi, fai, crai].boxed()
+}
+
+fn check_flat(c: &FlatCase) -> Verdict {
+    match c {
+        FlatCase::Gzi(v) => {
+            let index = bgzf::gzi::Index::from(v.clone());
+            let mut buf = Vec::new();
+            bgzf::gzi::io::Writer::new(&mut buf).write_index(&index).map_err(|e| err1("c17.gzi.write-error", format!("{e}")))?;
+            // independent layout check: u64 count, then (compressed, uncompressed) pairs, little endian
+            let mut want = Vec::new();
+            want.extend_from_slice(&(v.len() as u64).to_le_bytes());
+            for (a, b) in v {
+                want.extend_from_slice(&a.to_le_bytes());
+                want.extend_from_slice(&b.to_le_bytes());
+            }
+            ensure!(buf == want, "c17.gzi.bytes", "gzi bytes differ from the bgzip -i layout: {:?} vs {:?}", trunc(&format!("{buf:?}"), 300), trunc(&format!("{want:?}"), 300));
+            let back = bgzf::gzi::io::Reader::new(&buf[..]).read_index().map_err(|e| err1("c17.gzi.read-error", format!("{e}")))?;
+            ensure_eq!(back, index, "c17.gzi.roundtrip", "gzi index");
+            Ok(Pass::new(!v.is_empty(), key_of(c)).label("gzi").label_if(v.is_empty(), "gzi-empty"))
+        }
+        FlatCase::Fai(v) => {
+            use std::num::NonZero;
+            let records: Vec<noodles_fasta::fai::Record> = v
+                .iter()
+                .map(|(n, len, off, lb, lw)| noodles_fasta::fai::Record::new(n.as_bytes().to_vec(), *len, *off, NonZero::new((*lb).max(1)).unwrap_or(NonZero::<u64>::MIN), NonZero::new((*lw).max(1)).unwrap_or(NonZero::<u64>::MIN)))
+                .collect();
+            let index = noodles_fasta::fai::Index::from(records);
+            let mut buf = Vec::new();
+            noodles_fasta::fai::io::Writer::new(&mut buf).write_index(&index).map_err(|e| err1("c17.fai.write-error", format!("{e}")))?;
+            let mut want = Vec::new();
+            for (n, len, off, lb, lw) in v {
+                want.extend_from_slice(format!("{n}\t{len}\t{off}\t{}\t{}\n", (*lb).max(1), (*lw).max(1)).as_bytes());
+            }
+            ensure!(buf == want, "c17.fai.bytes", "fai text differs from NAME\\tLENGTH\\tOFFSET\\tLINEBASES\\tLINEWIDTH: {:?} vs {:?}", String::from_utf8_lossy(&buf), String::from_utf8_lossy(&want));
+            let back = noodles_fasta::fai::io::Reader::new(&buf[..]).read_index().map_err(|e| err1("c17.fai.read-error", format!("{e}")))?;
+            ensure_eq!(back, index, "c17.fai.roundtrip", "fai index");
+            Ok(Pass::new(!v.is_empty(), key_of(c)).label("fai").label_if(v.iter().any(|r| !r.0.is_ascii()), "fai-non-ascii-name"))
+        }
+        FlatCase::Crai(v) => {
+            let records: Vec<noodles_cram::crai::Record> = v
+                .iter()
+                .map(|(rid, start, span, off, lm, sl)| noodles_cram::crai::Record::new(rid.map(|x| x as usize), Position::new(*start as usize), *span as usize, *off, *lm, *sl))
+                .collect();
+            let mut w = noodles_cram::crai::io::Writer::new(Vec::new());
+            w.write_index(&records).map_err(|e| err1("c17.crai.write-error", format!("{e}")))?;
+            let buf = w.finish().map_err(|e| err1("c17.crai.write-error", format!("finish: {e}")))?;
+            // independent: gunzip, six tab-separated decimal columns in the order of the CRAM spec §12:
+            // seq id, alignment start, alignment span, container offset, slice offset, slice size
+            let mut text = String::new();
+            {
+                use std::io::Read;
+                let mut dec = flate2::read::MultiGzDecoder::new(&buf[..]);
+                dec.read_to_string(&mut text).map_err(|e| err1("c17.crai.bytes", format!("crai output is not gzip text: {e}")))?;
+            }
+            let mut want = String::new();
+            for (rid, start, span, off, lm, sl) in v {
+                let id: i64 = rid.map(|x| x as i64).unwrap_or(-1);
+                want.push_str(&format!("{id}\t{start}\t{span}\t{off}\t{lm}\t{sl}\n"));
+            }
+            ensure!(text == want, "c17.crai.bytes", "crai text {:?} ≠ expected {:?}", trunc(&text, 400), trunc(&want, 400));
+            let mut fails = Fails::new();
+            match noodles_cram::crai::io::Reader::new(&buf[..]).read_index() {
+                Ok(back) => {
+                    if back != records {
+                        fails.push("c17.crai.roundtrip", format!("crai read_index gives {} for {}", trunc(&format!("{back:?}"), 500), trunc(&format!("{records:?}"), 500)));
+                    }
+                }
+                Err(e) => {
+                    let sig = if records.len() >= 2 { "c17.crai.read_index.multi-record" } else { "c17.crai.read-error" };
+                    fails.push(sig, format!("crai read_index rejects noodles' own output of {} records: {e}", records.len()));
+                }
+            }
+            // the record-at-a-time path
+            {
+                let mut r = noodles_cram::crai::io::Reader::new(&buf[..]);
+                let mut back = Vec::new();
+                let mut rec = noodles_cram::crai::Record::default();
+                loop {
+                    match r.read_record(&mut rec) {
+                        Ok(0) => break,
+                        Ok(_) => back.push(rec.clone()),
+                        Err(e) => {
+                            fails.push("c17.crai.read_record-error", format!("crai read_record after {} records: {e}", back.len()));
+                            break;
+                        }
+                    }
+                }
+                if fails.0.iter().all(|f| f.sig != "c17.crai.read_record-error") && back != records {
+                    fails.push("c17.crai.roundtrip.read_record", format!("crai read_record sequence gives {} for {}", trunc(&format!("{back:?}"), 500), trunc(&format!("{records:?}"), 500)));
+                }
+            }
+            fails.finish(Pass::new(!v.is_empty(), key_of(c)).label("crai").label_if(v.iter().any(|r| r.0.is_none()), "crai-unmapped-entry").label_if(v.iter().any(|r| r.1 == 0), "crai-missing-start").label_if(v.len() >= 2, "crai-multi-record"))
+        }
+    }
+}
 
 pub fn property() -> Property {
-    Property { id: "C17", level: "exploration", rule: "", assumptions: vec![], subs: vec![], max_parallel: 16 }
+    Property {
+        id: "C17",
+        level: "exploration",
+        rule: "all feature/region interval pairs of the small geometries (exhaustive, M_b[e] reformulation); edge-dense sampled pairs at the large geometries through Indexer+query; generated chunk lists × min_offset; arbitrary structurally valid and indexer-built BAI/CSI/tabix/gzi/fai/crai indexes",
+        assumptions: vec![
+            "oracle::binning (transcription of the CSI/SAM specification routines, cross-checked against a definition-based formulation) is correct".into(),
+            "the harness's byte-level walkers encode the BAI/tabix/CSI layouts of the specifications correctly".into(),
+            "miniz_oxide/crc32fast (BGZF walker) and flate2 (crai gunzip) are correct".into(),
+            "the verif hook re-exports reg2bin/reg2bins unchanged (the sampled public-path sub-check does not rely on it)".into(),
+        ],
+        subs: vec![
+            EnumSub {
+                name: "containment",
+                rule: "every region [s,e] of the geometry × every bin b: if some feature of bin b (per noodles' reg2bin) intersects the region then reg2bins lists b; every interval's reg2bin equals the specification routine; one evaluation = one (region, bin) bit test or one reg2bin comparison",
+                run: run_containment,
+                replay: replay_pair,
+                shards: (16, 16),
+                opts: SubOpts { exhaustive: true, ..SubOpts::default() },
+            }
+            .boxed(),
+            sub("pairs_public", "intersecting (feature, region) pairs, edge-dense, five geometries; every pair evaluated on a BinnedIndex and a LinearIndex; all non-trivial", pub_pairs_strategy, check_pub_pairs, 60_000, 1_200_000).boxed(),
+            sub("chunks", "non-trivial = ≥2 chunks with an overlapping, touching or nested pair", chunks_strategy, check_chunks, 300_000, 4_000_000).boxed(),
+            sub("rt_binning", "non-trivial = at least one reference with a bin (tabix: or a name)", rt_strategy, check_rt, 300_000, 3_000_000).boxed(),
+            sub("rt_flat", "non-trivial = non-empty index", flat_strategy, check_flat, 100_000, 1_500_000).boxed(),
+        ],
+        max_parallel: 16,
+    }
 }
